@@ -247,6 +247,31 @@ fn exact_grid(args: &Args, rep: &mut Report) {
             }
         }
     }
+    // located exact grid: event-based bounds that cross midnight on the selector's boundary days
+    let mut lidx = 0u64;
+    for (lat, lon) in stream::LOCATED_GRID_SITES {
+        for text in stream::located_grid_expressions(lat, lon) {
+            lidx += 1;
+            if (lidx - 1) % args.of.max(1) != args.worker {
+                continue;
+            }
+            let Some(oh) = stream::build_located(&text, lat, lon) else {
+                rep.count("exact_grid_skipped_parser_rejects");
+                continue;
+            };
+            rep.evaluations += 1;
+            rep.begin(&format!("located grid {text} | ({lat}, {lon})"));
+            match stream::check_exact_located(&oh, ymd(2018, 1, 1), ymd(2042, 12, 31), &mut Rng::new(args.seed, 0x10ca, lidx), 0, &mut st) {
+                Ok(()) => rep.count("located_grid_windows_passed"),
+                Err(msg) => {
+                    rep.violation("interval_stream_exact_located", format!("{text:?} at ({lat}, {lon}) [UTC]: {msg}"), json!({"expr": text, "lat": lat, "lon": lon, "located_grid": true}), None);
+                    if rep.full() {
+                        return;
+                    }
+                }
+            }
+        }
+    }
     rep.add("exact_grid_days_evaluated", st.days_evaluated);
     rep.add("exact_grid_intervals_compared", st.intervals_compared);
 }
@@ -380,6 +405,21 @@ pub fn run(args: &Args, rep: &mut Report) {
 pub fn replay(args: &Args, case: &Value, rep: &mut Report) {
     let text = case_expr(case);
     let hol = case_hol(case);
+    if case["located_grid"].as_bool() == Some(true) {
+        rep.evaluations += 1;
+        let (lat, lon) = (case["lat"].as_f64().unwrap_or(0.0), case["lon"].as_f64().unwrap_or(0.0));
+        let ymd = |y: i32, m: u32, d: u32| NaiveDate::from_ymd_opt(y, m, d).unwrap();
+        let mut st = stream::ExactStats { days_evaluated: 0, intervals_compared: 0, next_change_calls: 0 };
+        match stream::build_located(&text, lat, lon) {
+            None => rep.violation("witness_rejected", format!("{text:?} does not parse"), case.clone(), None),
+            Some(oh) => {
+                if let Err(msg) = stream::check_exact_located(&oh, ymd(2018, 1, 1), ymd(2042, 12, 31), &mut Rng::new(5, 0, 0), 0, &mut st) {
+                    rep.violation("interval_stream_exact_located", format!("{text:?} at ({lat}, {lon}) [UTC]: {msg}"), case.clone(), None);
+                }
+            }
+        }
+        return;
+    }
     if let (Some(lat), Some(lon)) = (case["lat"].as_f64(), case["lon"].as_f64()) {
         rep.evaluations += 1;
         let from = case["from_utc"].as_str().and_then(|s| NaiveDateTime::parse_from_str(s, "%Y-%m-%d %H:%M:%S%.f").ok()).unwrap_or_default();
